@@ -70,15 +70,14 @@ def init (rules : List Rule) : State := rules.map fun r => { rule := r }
 
 /-- `updateIndex` (runs after `scache.Set`). -/
 def updateIndex (rs : RS) (a : Alert) : RS :=
-  let eq := rs.rule.eqKey a.labels
-  match lookup rs.sindex eq with
-  | none => { rs with sindex := put rs.sindex eq a.labels }
+  match lookup rs.sindex (rs.rule.eqKey a.labels) with
+  | none => { rs with sindex := put rs.sindex (rs.rule.eqKey a.labels) a.labels }
   | some ix =>
     if ix = a.labels then rs
     else match lookup rs.scache ix with
-      | none => { rs with sindex := put rs.sindex eq a.labels }
+      | none => { rs with sindex := put rs.sindex (rs.rule.eqKey a.labels) a.labels }
       | some ex =>
-        if ex.resolvedAt a.endsAt then { rs with sindex := put rs.sindex eq a.labels } else rs
+        if ex.resolvedAt a.endsAt then { rs with sindex := put rs.sindex (rs.rule.eqKey a.labels) a.labels } else rs
 
 /-- `processAlert` for one rule. -/
 def procRule (a : Alert) (rs : RS) : RS :=
@@ -105,8 +104,11 @@ def gcRule (now : Int) (rs : RS) : RS :=
   if dead.isEmpty then rs'
   else (rs'.scache.map Prod.snd).foldl updateIndex rs'
 
-def gcAt (i : Nat) (now : Int) (st : State) : State :=
-  st.mapIdx fun j rs => if j = i then gcRule now rs else rs
+/-- the GC tick of rule number `i` (each rule's cache has its own GC loop). -/
+def gcAt : Nat → Int → State → State
+  | _, _, [] => []
+  | 0, now, rs :: rest => gcRule now rs :: rest
+  | i + 1, now, rs :: rest => rs :: gcAt i now rest
 
 /-- can cached source `a` inhibit at `now`?  `excl` = the queried label set matches the rule's source side too. -/
 def usable (r : Rule) (now : Int) (excl : Bool) (a : Alert) : Bool :=
@@ -140,8 +142,10 @@ namespace Legacy
 def gcRule (now : Int) (rs : RS) : RS :=
   { rs with scache := survivors now rs.scache, sindex := dropKeys rs.rule rs.sindex (collected now rs.scache) }
 
-def gcAt (i : Nat) (now : Int) (st : State) : State :=
-  st.mapIdx fun j rs => if j = i then gcRule now rs else rs
+def gcAt : Nat → Int → State → State
+  | _, _, [] => []
+  | 0, now, rs :: rest => gcRule now rs :: rest
+  | i + 1, now, rs :: rest => rs :: gcAt i now rest
 
 /-- `findEqualSourceAlert` + `hasEqual` as pinned: the single slot decides. -/
 def hasEqual (rs : RS) (now : Int) (ls : Labels) : Option Labels :=
